@@ -235,7 +235,8 @@ def all_families(nws=(1, 2, 3)):
                 sleep_then_spawn(nw), two_awaits_same_worker(nw)]
         out += select_cases(nw)
         out += failure_cases(nw)
-        out += [request_reply(nw, 1), request_reply(nw, 2), message_during_spawn(nw), send_to_finished(nw), filter_fails(nw)]
+        out += [request_reply(nw, 1), request_reply(nw, 2), message_during_spawn(nw), send_to_finished(nw), filter_fails(nw),
+                abandoned_await(nw), abandoned_await_msg(nw)]
         out += heap_cases(nw)
         out += ref_cases(nw)
         out += resource_cases(nw)
@@ -443,3 +444,25 @@ def select_product(seed, n, nw=2):
         sc["sampled"] = True
         out.append(sc)
     return out
+
+
+def abandoned_await(nw=2):
+    # a select gives up on T (timeout) while T's worker still has the process on file as an awaiter; a second
+    # select then awaits U (another worker) with a timeout; T finishes in between.  The stale report about T
+    # may be merged into the answer to the second await: the process must still start its timer.
+    scripts = [[spawn(1, 2), spawn(2, 3), select(3, aw(1), tmo(1)), send(1, c(I(1))), select(4, aw(2), tmo(2)),
+                send(2, c(I(2))), select(5, aw(2)), ret(t(r(3), r(4), r(5)))],
+               [select(1, recv()), ret(c(I(11)))],
+               [select(1, recv()), ret(c(I(22)))]]
+    return meta(scenario("abandoned_await_w%d" % nw, scripts, nw=nw, maxtick=3), False, True, ["C04", "C03", "C05"], large=True)
+
+
+def abandoned_await_msg(nw=2):
+    # same, but the second select is saved by an already queued message instead of a timeout
+    scripts = [[spawn(1, 2), spawn(2, 3), selfpid(6), spawn(7, 4, r(6)), select(8, aw(7)),
+                select(3, aw(1), tmo(1)), send(1, c(I(1))), select(4, aw(2), recv()),
+                send(2, c(I(2))), select(5, aw(2)), ret(t(r(3), r(4), r(5)))],
+               [select(1, recv()), ret(c(I(11)))],
+               [select(1, recv()), ret(c(I(22)))],
+               [send(1, c(I(7))), ret(OKE)]]
+    return meta(scenario("abandoned_await_msg_w%d" % nw, scripts, nw=nw, maxtick=1), False, True, ["C04", "C05"], large=True)
